@@ -52,6 +52,16 @@ def gen_cases(tier, seed):
             # stop by message limit: the stop instant is set by completions, so vary M, durations and latency instead of the step
             for M in ((1, 2) if tier == "quick" else (1, 2, 3)):
                 cases.append(dict(base, fault="limit", graceful=rnd.choice([0.0, 0.5, 3.0]), M=M, sample=0, part=0, parts=1))
+    # directed: many executions in flight when the graceful period runs out (forced cancellation of all of them while the
+    # consumers are being finished), on every broker
+    for kind in ("mem", "redis", "rabbit"):
+        jobs = [{"kind": k, "d": 10.0} for k in ("ok", "fail_retry", "result", "ok", "ok")]
+        base = {"kind": kind, "jobs": jobs, "tl": 1000, "seed": rnd.randrange(10**6), "latency": None if kind == "mem" else 0.002}
+        parts = 3 if tier == "quick" else 6
+        for g in ((0.5,) if tier == "quick" else (0.0, 0.5, 3.0)):
+            for part in range(parts):
+                cases.append(dict(base, fault="stop", graceful=g, sample=0.02 if tier == "quick" else 0.1, part=part, parts=parts))
+        cases.append(dict(base, fault="limit", graceful=0.5, M=1, sample=0, part=0, parts=1))
     return cases
 
 
